@@ -419,10 +419,18 @@ theorem C18_optional_right_as_written (mode : Gen.JoinKernel.JoinMode) (lhs rhs 
   refine ⟨c', hc', h1, h2, h3.trans ?_⟩
   cases mode <;> simp [toMode]
 
-/-- the `NativeFunctionCompiler` wrappers hand these modes to `compile_table_join` -/
+/-- the `NativeFunctionCompiler` wrappers hand these modes to `compile_table_join`, which calls
+    `build_joined_table(arguments[0], arguments[1], mode)`; the word forms (`register_descriptor!`) and the symbol forms
+    (`TableOp` arms of expressions.rs, operands in order) reach the wrapper of their mode -/
 theorem C18_compilers_as_written :
-    compilers = [("TableInnerJoin", .Inner), ("TableLeftOuterJoin", .LeftOuter), ("TableRightOuterJoin", .RightOuter),
-      ("TableFullOuterJoin", .FullOuter), ("TableLeftSemiJoin", .LeftSemi), ("TableLeftAntiJoin", .LeftAnti)] := by
+    operands = (0, 1) ∧ compilers = [("TableInnerJoin", .Inner), ("TableLeftOuterJoin", .LeftOuter), ("TableRightOuterJoin", .RightOuter),
+      ("TableFullOuterJoin", .FullOuter), ("TableLeftSemiJoin", .LeftSemi), ("TableLeftAntiJoin", .LeftAnti)] ∧
+    descriptors = [("table/join", "TableInnerJoin"), ("table/left-outer-join", "TableLeftOuterJoin"),
+      ("table/right-outer-join", "TableRightOuterJoin"), ("table/full-outer-join", "TableFullOuterJoin"),
+      ("table/left-semi-join", "TableLeftSemiJoin"), ("table/left-anti-join", "TableLeftAntiJoin")] ∧
+    symbolForms = [("InnerJoin", "TableInnerJoin", true), ("LeftOuterJoin", "TableLeftOuterJoin", true),
+      ("RightOuterJoin", "TableRightOuterJoin", true), ("FullOuterJoin", "TableFullOuterJoin", true),
+      ("LeftSemiJoin", "TableLeftSemiJoin", true), ("LeftAntiJoin", "TableLeftAntiJoin", true)] := by
   decide
 
 end AsWritten
